@@ -40,4 +40,7 @@ def tune(plan, tier):
 
 
 def run(tier, seed, replay):
-    return rthost_check.run("C23", "c23", tier, seed, replay, RULE, tune=tune)
+    rep = rthost_check.run("C23", "c23", tier, seed, replay, RULE, tune=tune)
+    if replay is not None:
+        rthost_check.replay_floor(rep, FLOORS, tier)
+    return rep
